@@ -312,6 +312,27 @@ def run_case(case):
                     must_raise(drop, f"all entries under {pref} of {pname} deleted")
             must_raise(lambda sd: sd["state"].update({"unknown_param": copy.deepcopy(next(iter(sd["state"].values())))}), "state names an unknown parameter")
             must_raise(lambda sd: sd["param_groups"].update({"extra_group": copy.deepcopy(next(iter(sd["param_groups"].values())))}), "an extra param group")
+            # the same parameters partitioned differently into the same number of groups must be refused
+            if run["groups"] and len(run["groups"]) >= 2 and any(len(g["params"]) >= 2 for g in run["groups"]):
+                import copy as _copy
+
+                regrouped = _copy.deepcopy(run["groups"])
+                big = max(range(len(regrouped)), key=lambda i: len(regrouped[i]["params"]))
+                other = (big + 1) % len(regrouped)
+                moved = regrouped[big]["params"].pop()  # keeps the alphabetically first name of every group
+                regrouped[other]["params"].append(moved)
+                regrouped[other]["params"].sort()
+                if all(g["params"] for g in regrouped):
+                    ps4 = [torch.nn.Parameter(v.detach().clone()) for v in vals]
+                    o4 = G.build_optimizer(ds, torch, cfg, ps4, regrouped)
+                    counters["negative_loads"] += 1
+                    counters["regrouped_loads"] = counters.get("regrouped_loads", 0) + 1
+                    try:
+                        o4.load_distributed_state_dict(torch.load(io.BytesIO(blob), weights_only=False), key_to_param=iter(names(ps4)))
+                    except Exception:  # noqa
+                        pass
+                    else:
+                        raise Violation("a checkpoint loaded into an optimizer whose param groups partition the parameters differently", defect="param groups regrouped", saved_groups=[g["params"] for g in run["groups"]], loading_groups=[g["params"] for g in regrouped], **desc)
             gk = next(iter(sd0["param_groups"]))
             must_raise(lambda sd: sd["param_groups"].update({gk + "_renamed": sd["param_groups"].pop(gk)}), "a param group renamed")
     except OutOfDomain:
